@@ -482,6 +482,9 @@ EXPLANATION = (
 EXPLANATION += (
     " R7: alloc_uninit / alloc_uninit_slice request size_of::<T>() (* count) bytes at align_of::<T>() and return `count` elements."
 )
+EXPLANATION += (
+    ' R8: what the allocator primitives store and hand out, compared as values through a linear normal form (so the spelling is free): alloc_raw returns `bytes` bytes and leaves the watermark at beg + bytes; alloc_raw_bump returns end - beg and leaves it at end; in-place grow adds new - old; shrink of the tail block leaves offset - old + new. R9: the status of mprotect / munmap / madvise is tested so that -1 goes to the error outcome and 0 to success.'
+)
 ASSUMPTIONS = ["the recognised round-up idioms compute what they are known to compute", "unix virtual-memory back end"]
 TRUSTED = ["rustc nightly MIR and const-eval", "nsx exporter", "nsverif relational-guard extraction"]
 NONTRIVIAL = "one obligation per guarded return, cursor writer, forwarding method and rounding site"
